@@ -145,4 +145,15 @@ PROPS = {
         "assumptions": ["routesDistinct: the configured routes are pairwise distinct and differ from /healthz and /ready (holds for the defaults, proved)",
                         "hunsigned (C11_want_signed_means_refused): the XML-DSig validator rejects a document without signature (goxmldsig; sampled)"],
     },
+    "C09": {
+        "modules": ["SamlModel.Props.C09"],
+        "translated": ["certificateCheckNecessary", "checkCertificate", "equalCertificateText", "checkRequestRequiredContent", "verifyRequestDestinationOfAuthRequest",
+                       "verifyRequestDestinationOfAttrQuery", "GetCertsFromKeyDescriptors", "getResponseCert", "GetAcsUrlAndBindingForResponse",
+                       "signaturePostProvided", "signatureRedirectVerificationNecessary", "signaturePostVerificationNecessary", "verifyRedirectSignature", "verifyPostSignature"],
+        "trusted_base": COMMON_TRUST + SSO_TRUST + CB_TRUST + [
+            "go2lean's panic guards: every pointer dereference / nil-able selector of the translated Go code is emitted as an explicit `if <nil condition> then .panic`; the guard derivation itself is validated by the differential fn/handler ops (model and implementation must agree on panic vs. no panic)",
+            "no theorem about panics inside encoding/xml, etree, goxmldsig, compress/flate, html/template, crypto: they are oracles in the model and are exercised by the structural-edit and byte-mutation generators",
+        ],
+        "assumptions": ["SpWF: a registered service provider has metadata with an SPSSODescriptor (NewServiceProvider refuses others); storage returns non-nil objects with nil errors"],
+    },
 }
